@@ -201,8 +201,10 @@ CLAIMS['C04'] = (
     'bounded exhaustive enumeration of path-component names x roles x backends, observed on disk through the real make / refninja; run-time feasibility witnesses from hand-written reference Makefiles',
     'Every name of the shapes c, xc, cx, xcy for each printable ASCII character except the separators (thorough: plus '
     'every pair of special characters in the middle) is used as source file, source directory, named output, output '
-    'sub-directory, copied file, find_files directory whose results are copied, and find_files directory whose '
-    'results feed a plainly named step, on both backends. Observed per (name, role): the step creates '
+    'sub-directory, copied file, compiled C source (object handed to the link rule), find_files directory whose results '
+    'are copied, find_files directory whose results feed a plainly named step, installed data file (real doppel: '
+    'install and uninstall) and header of a C file compiled by the real gcc (bfg9000-depfixer; modify, then remove '
+    'header and #include), on both backends. Observed per (name, role): the step creates '
     'the file at exactly the expected path and nowhere else, a second build runs nothing, modifying the prerequisite '
     're-makes exactly the consuming step, clean removes the outputs only, adding a file to a walked directory '
     'regenerates. A (name, role) pair is demanded of bfg9000 only if a hand-written reference Makefile can express '
@@ -215,8 +217,9 @@ CLAIMS['C04'] = (
 CLAIMS['C07'] = (
     'model_checking',
     'explicit-state BFS over edit histories of a generated C project built with the real gcc, make/refninja and bfg9000-depfixer; reference include scanner as oracle',
-    'For 7 header-name classes (plain, space, #, $, %, leading ~, colon/parentheses) and 2 object-path classes '
-    '(executable and source directory names with a space / with $ and #) and both backends, a small C '
+    'For 7 header-name classes (plain, space, #, $, %, leading ~, colon/parentheses), 2 object-path classes '
+    '(executable and source directory names with a space / with $ and #) and a precompiled-header class, and both '
+    'backends, a small C '
     'project whose program output is a function of its file contents is built with the real gcc through a logging '
     'wrapper; breadth-first search to depth 2/3 over edit operations (modify each header/source, add a header, drop '
     'an include and delete the header, rename a transitively included header, clean) from the built state and every '
